@@ -3,6 +3,7 @@
 R_AXIOMS = [
     "ClassicalDedekindReals.sig_forall_dec", "ClassicalDedekindReals.sig_not_dec",
     "FunctionalExtensionality.functional_extensionality_dep",
+    "Classical_Prop.classic",
 ]
 
 def P(n, **kw):
@@ -17,6 +18,13 @@ MAT_ASSUME = [
 PROPS = {
     "C01": P(1, assumptions=MAT_ASSUME, trusted=["rustc monomorphisation of the generic code at Xq"]),
     "C02": P(2, runmod="RunC01", assumptions=MAT_ASSUME + ["`==` on the scalar type decides equality (EqbSpec; true of Qc by proof, of f32/f64 except NaN)"],
+             trusted=["rustc monomorphisation of the generic code at Xq"]),
+    "C04": P(4, axioms=R_AXIOMS, assumptions=["model (coq/Model/Quaternion.v) is hand-written; tied to /repo by the exact-arithmetic correspondence of this run",
+              "C04_invert_R is stated over Coq's reals (q != 0 => |q|^2 != 0 needs an ordered field); every other theorem holds over any commutative ring/field"],
+             trusted=["rustc monomorphisation of the generic code at Xq"]),
+    "C05": P(5, runmod="RunC04", axioms=R_AXIOMS, assumptions=["model (coq/Model/Quaternion.v, Matrix.v, Rotation.v) is hand-written; tied to /repo by the exact-arithmetic correspondence of this run",
+              "the round trip (C05_roundtrip) is over Coq's reals with the standard sqrt; the action/orthonormality/composition theorems hold over any field with decidable equality",
+              "a Basis3 is modelled by its matrix (the struct has that single private field)"],
              trusted=["rustc monomorphisation of the generic code at Xq"]),
     "C03": P(3,
         assumptions=[
